@@ -59,6 +59,9 @@ def check_tree(ctx, case):
             if X.has_nonfinite(res):
                 ctx.count("excluded_nonfinite")
                 continue
+            if E.has_huge_constant(res):
+                ctx.count("excluded_huge_constant")
+                continue
             if A.variables(res) != src_vars:
                 det["vars"] = [sorted(src_vars), sorted(A.variables(res))]
                 return ctx.fail(("variable-set-changed",) + bk, case, det)
